@@ -83,3 +83,23 @@ package java_identify
 //@ ensures old(currentMethod.IsReturnNull) ==> currentMethod.IsReturnNull
 //@ ensures IsKind(Parent(ctx), "StatementContext") && Lower(GetText(Kid(Parent(ctx), 0))) == "return" && Contains(GetText(ctx), "null") ==> currentMethod.IsReturnNull
 //@ ensures currentMethod.Name == old(currentMethod.Name) && currentMethod.ReturnType == old(currentMethod.ReturnType) && currentMethod.Annotations == old(currentMethod.Annotations)
+
+// ---- C01: interfaces are declared types too: named by their identifier, listed exactly once when their declaration ends
+//@ method JavaIdentifierListener.EnterInterfaceDeclaration
+//@ modifies hasEnterClass, *currentNode
+//@ ensures (*currentNode).NodeName == GetText(Child(ctx, "identifier")) && (*currentNode).Type == "Interface" && hasEnterClass
+//@ ensures (*currentNode).Package == old((*currentNode).Package) && (*currentNode).Functions == old((*currentNode).Functions)
+
+//@ method JavaIdentifierListener.ExitInterfaceDeclaration
+//@ modifies hasEnterClass, nodes, currentNode
+//@ ensures old((*currentNode).NodeName) != "" ==> len(nodes) == old(len(nodes)) + 1 && Extends(nodes, old(nodes), 1) && nodes[len(nodes) - 1] == old(*currentNode)
+//@ ensures old((*currentNode).NodeName) == "" ==> nodes == old(nodes)
+//@ ensures (*currentNode).NodeName == "" && len((*currentNode).Functions) == 0 && !hasEnterClass
+
+//@ method JavaIdentifierListener.EnterInterfaceMethodDeclaration
+//@ modifies currentMethod
+//@ ensures currentMethod.Name == GetText(Child(Child(ctx, "interfaceCommonBodyDeclaration"), "identifier")) && currentMethod.ReturnType == GetText(Child(Child(ctx, "interfaceCommonBodyDeclaration"), "typeTypeOrVoid")) && !currentMethod.IsConstructor
+
+//@ method JavaIdentifierListener.EnterImportDeclaration
+//@ modifies imports
+//@ ensures len(imports) == old(len(imports)) + 1 && Extends(imports, old(imports), 1) && imports[len(imports) - 1] == GetText(Child(ctx, "qualifiedName"))
